@@ -56,7 +56,7 @@ class Term:
             else:
                 d[a] = e
         self.atoms = tuple(sorted(((a, sp.nsimplify(e) if e.is_number else sp.simplify(e)) for a, e in d.items() if sp.simplify(e) != 0),
-                                  key=lambda ae: atom_key(ae[0])))
+                                  key=lambda ae: atom_key(ae[0], 7)))
         self.binders = tuple(binders)
         self.guards = frozenset(norm_guard(g) for g in guards)
         self._key = None
@@ -110,10 +110,12 @@ class Term:
         o2 = o.subst(m) if m else o
         return Term(self.coeff * o2.coeff, self.atoms + o2.atoms, self.binders + o2.binders, set(self.guards) | set(o2.guards))
 
-    def key(self):
+    def key(self, depth=0):
         if self._key is None:
-            self._key = term_key(self)
-        return self._key
+            self._key = {}
+        if depth not in self._key:
+            self._key[depth] = term_key(self, depth)
+        return self._key[depth]
 
     def __repr__(self):
         return self.key()
@@ -121,6 +123,8 @@ class Term:
 
 def norm_guard(g):
     """Guards: ('<', a, b), ('=', a, b), ('<=', a, b), ('!=', a, b).  Constant-fold, orient '=' and '!='."""
+    if len(g) == 1:
+        return g
     rel, a, b = g[0], g[1], g[2]
     if isinstance(a, int) and isinstance(b, int):
         val = {"<": a < b, "=": a == b, "<=": a <= b, "!=": a != b}[rel]
@@ -197,59 +201,61 @@ def cond_subst(c, m):
     return out
 
 
-def atom_key(a):
+def atom_key(a, depth=0):
     k = a[0]
     if k in ("leaf", "acc"):
         return "%s[%s]" % (a[1], ",".join(str(x) for x in a[2:])) if len(a) > 2 else str(a[1])
     if k == "sym":
         return str(a[1])
     if k == "fn":
-        return "%s(%s)" % (a[1], a[2].key())
+        return "%s(%s)" % (a[1], a[2].key(depth + 1))
     if k == "pow":
-        return "(%s)" % a[1].key()
+        return "(%s)" % a[1].key(depth + 1)
     if k == "call":
         parts = []
         for x in a[2:]:
             if isinstance(x, Expr):
-                parts.append(x.key())
+                parts.append(x.key(depth + 1))
             elif isinstance(x, tuple) and x and x[0] == "ix":
                 parts.append(str(x[1]))
             elif isinstance(x, tuple):
-                parts.append(atom_key(x))
+                parts.append(atom_key(x, depth))
             else:
                 parts.append(str(x))
         return "%s(%s)" % (a[1], ",".join(parts))
     if k == "prod":
         # canonical dummy name
-        body = a[3].subst({a[1]: "§"})
-        return "Π[§<%s](%s)" % (a[2], body.key())
+        dummy = "§%d" % depth
+        body = a[3].subst({a[1]: dummy})
+        return "Π[%s<%s](%s)" % (dummy, a[2], body.key(depth + 1))
     if k == "ite":
-        return "ite(%s ? %s : %s)" % (a[1], a[2].key(), a[3].key())
+        return "ite(%s ? %s : %s)" % (a[1], a[2].key(depth + 1), a[3].key(depth + 1))
     return repr(a)
 
 
-def _raw_term_key(t):
+def _raw_term_key(t, depth=0):
     parts = [sp.srepr(sp.nsimplify(t.coeff)) if t.coeff.is_number else str(sp.simplify(t.coeff))]
-    for a, e in sorted(((atom_key(a), str(e)) for a, e in t.atoms)):
+    for a, e in sorted(((atom_key(a, depth), str(e)) for a, e in t.atoms)):
         parts.append("%s^%s" % (a, e))
     gs = sorted("%s%s%s" % (g[1], g[0], g[2]) if len(g) == 3 else g[0] for g in t.guards if g != ("true",))
     bs = sorted("%s<%s" % (b, c) for b, c in t.binders)
     return "Σ{%s|%s} %s" % (",".join(bs), ",".join(gs), " · ".join(parts))
 
 
-def term_key(t):
-    """Canonical string: binders renamed to the lexicographically least labelling."""
+def term_key(t, depth=0):
+    """Canonical string: binders renamed to the lexicographically least labelling (names carry the nesting depth, so a
+    bound variable of an enclosing term can never be confused with one of a nested expression)."""
     bs = [b for b, _c in t.binders]
     if not bs:
-        return _raw_term_key(t)
+        return _raw_term_key(t, depth)
     best = None
     if len(bs) > 5:
         perms = [tuple(range(len(bs)))]
     else:
         perms = itertools.permutations(range(len(bs)))
     for perm in perms:
-        m = {b: "β%d" % perm[i] for i, b in enumerate(bs)}
-        k = _raw_term_key(t.subst(m))
+        m = {b: "β%d.%d" % (depth, perm[i]) for i, b in enumerate(bs)}
+        k = _raw_term_key(t.subst(m), depth)
         if best is None or k < best:
             best = k
     return best
@@ -372,10 +378,12 @@ class Expr:
     def simplified(self):
         return combine(self.terms)
 
-    def key(self):
+    def key(self, depth=0):
         if self._key is None:
-            self._key = " + ".join(sorted(t.key() for t in combine(self.terms).terms)) or "0"
-        return self._key
+            self._key = {}
+        if depth not in self._key:
+            self._key[depth] = " + ".join(sorted(t.key(depth) for t in combine(self.terms).terms)) or "0"
+        return self._key[depth]
 
     def __hash__(self):
         return hash(self.key())
